@@ -6,7 +6,7 @@ from props import pipefmt, pipecheck, gen_programs
 
 PID = "C03"
 MANIFEST_ENTRY = {
- "level_claimed": {"category": "proof", "text": "Theorems in coq/Properties/C03.v about executable transliterations of parse() and build(): for EVERY token list parse never panics and never exhausts its walk fuel (C03_parse_total, by induction with the count guards as measure); for every sequence of at most 3 tokens over all 73 token types, and every sequence of 4 over a 32-type representative alphabet, parse-then-build is Ok or Err, never Panic or out of fuel (vm_compute enumeration lifted by forallb_forall, bound in the theorem names). The models are tied to /repo on every run: the parser's tables (definitions, priorities, adjacency matrix) are regenerated from parser.rs into coq/Gen/Defs.v, and model and implementation are run on all 394,419 short token sequences, representative soups, generated programs, mutated programs and character soups and compared node-for-node and instruction-for-instruction; any PANIC / HANG / CRASH of the real lex/parse/build (run in a killable child with a deadline) is a violation. Lexer totality is C13's lex_total. Partial: the builder's totality on arbitrary proper trees is not proved beyond the bounds; wall-clock and native stack are measured (scaling runs in the thorough tier), not proved.", "design_ref": "DESIGN.md section 8 C03"},
+ "level_claimed": {"category": "proof", "text": "Theorems in coq/Properties/C03.v about executable transliterations of parse() and build(): for EVERY input string lex never panics and always returns (C03_lex_total, from the lexer model of C13), for EVERY token list parse never panics and never exhausts its walk fuel (C03_parse_total, by induction with the count guards as measure); for every sequence of at most 3 tokens over all 73 token types, and every sequence of 4 over a 32-type representative alphabet, parse-then-build is Ok or Err, never Panic or out of fuel (vm_compute enumeration lifted by forallb_forall, bound in the theorem names). The models are tied to /repo on every run: the parser's tables (definitions, priorities, adjacency matrix) are regenerated from parser.rs into coq/Gen/Defs.v, and model and implementation are run on all 394,419 short token sequences, representative soups, generated programs, mutated programs and character soups and compared node-for-node and instruction-for-instruction; any PANIC / HANG / CRASH of the real lex/parse/build (run in a killable child with a deadline) is a violation. Partial: the builder's totality on arbitrary proper trees is not proved beyond the bounds; wall-clock and native stack are measured (scaling runs in the thorough tier), not proved.", "design_ref": "DESIGN.md section 8 C03"},
  "level_note": "Trusted: Coq kernel (vm_compute), translator tools/sync/defs.py, extraction (ExtrOcamlBasic), the Rust harness with its supervising parent process, literal parsing as an oracle of the builder model. No axioms (Print Assumptions: closed).",
  "technique": "Coq proof (induction + vm_compute finite enumeration) over transliterated parser/builder models + differential correspondence"}
 
@@ -37,10 +37,10 @@ def run(tier, seed):
     v = Verdict(PID, tier, seed)
     v.assumptions = ["token texts of T cases are fixed representatives per token type",
                      "a case that does not answer within 3 s of wall-clock is counted as a hang"]
-    sy = vplib.sync(["tokentypes", "defs", "instr"])
+    sy = vplib.sync(["tokentypes", "tokens", "defs", "instr"])
     for k, e in sy["errors"].items():
         v.tie_failure("sync %s: %s" % (k, e))
-    pr = vplib.prove(PID, ["Proofs/C03"], extra_targets=["Extract/PipeExtract.vo"])
+    pr = vplib.prove(PID, ["Proofs/C03", "Proofs/C13/LexRun.v"], extra_targets=["Extract/PipeExtract.vo"])
     for f in pr["failures"]:
         v.tie_failure("prove: " + f)
     v.coverage.update(vplib.proof_coverage(pr, "make -C coq Properties/C03.vo Extract/PipeExtract.vo; coqc Properties/C03.v; tools/props/c03.py", TRUSTED))
